@@ -153,7 +153,12 @@ def as_array(b):
     dt = np_dtype(b["dt"])
     if held_as_bytes(b):
         dt = "S8"       # the same strings held as bytes (what files and pydap's own parsers deliver); a function of the case
-    return np.array(b["data"], dtype=dt).reshape(b["shape"]) if b["shape"] else np.array(b["data"][0], dtype=dt)
+    a = np.array(b["data"], dtype=dt).reshape(b["shape"]) if b["shape"] else np.array(b["data"][0], dtype=dt)
+    if b["dt"] != "U" and a.dtype.itemsize > 1 and zlib.crc32(repr((b["name"], b["shape"], b["data"][:3])).encode()) % 4 == 1:
+        # the same values held big-endian (what netCDF-3 files, .dods files and pydap's own client deliver): a function
+        # of the case, bit-exact (byteswap + relabel, no cast)
+        a = a.byteswap().view(a.dtype.newbyteorder(">"))
+    return a
 
 
 def build(spec, lazy=False):
